@@ -1211,7 +1211,11 @@ pub fn decode_match(reader: &mut BitReader) -> Result<(Match, usize)> {
         }
         CompressionType::Far2Long => {
             let distance = reader.read_bits(16)? as u16;
-            let length = decode_variable_length(reader)? as u16 + MIN_FAR2_LONG_LENGTH as u16; // Add offset back
+            // Add offset back; the field is 16 bits wide, larger values are not a valid stream
+            let length = decode_variable_length(reader)?
+                .checked_add(MIN_FAR2_LONG_LENGTH as u32)
+                .and_then(|l| u16::try_from(l).ok())
+                .ok_or_else(|| ZiporaError::invalid_data("Far2Long length out of range"))?;
             Match::Far2Long { distance, length }
         }
         CompressionType::Far3Long => {
